@@ -113,6 +113,22 @@ func (r *RawCli) Do(b int32, req kmsg.Request) (kmsg.Response, error) {
 	return r.roundTrip(b, req)
 }
 
+// DoController sends an administrative request to the cluster's controller
+// (CreateTopics, DeleteTopics and CreatePartitions are only served there).
+func (r *RawCli) DoController(req kmsg.Request) (kmsg.Response, error) {
+	mreq := kmsg.NewPtrMetadataRequest()
+	mreq.Topics = []kmsg.MetadataRequestTopic{} // no topics
+	resp, err := r.Do(0, mreq)
+	if err != nil {
+		return nil, err
+	}
+	ctl := resp.(*kmsg.MetadataResponse).ControllerID
+	if ctl < 0 {
+		ctl = 0
+	}
+	return r.Do(ctl, req)
+}
+
 // Leader asks broker 0 for the leader of a partition.
 func (r *RawCli) Leaders(topic string) (map[int32]int32, error) {
 	req := kmsg.NewPtrMetadataRequest()
